@@ -227,6 +227,54 @@ impl<T: Target> Target for Vec<T> {
     }
 }
 
+impl<T: Target> Target for (T,) {
+    const NAME: &'static str = "(_,)";
+    fn expect(v: &FV) -> Expect<Self> {
+        match v {
+            FV::List(xs) if xs.len() == 1 => T::expect(&xs[0]).map(|a| (a,)),
+            FV::Enum(_) => Expect::Any,
+            _ => Expect::ErrRequired,
+        }
+    }
+    fn same(a: &Self, b: &Self) -> bool {
+        T::same(&a.0, &b.0)
+    }
+}
+
+impl<T: Target, U: Target, W: Target> Target for (T, U, W) {
+    const NAME: &'static str = "(_, _, _)";
+    fn expect(v: &FV) -> Expect<Self> {
+        match v {
+            FV::List(xs) if xs.len() == 3 => {
+                // via the pair rule: ((a, b), c)
+                let ab = <(T, U)>::expect(&FV::List(vec![xs[0].clone(), xs[1].clone()].into()));
+                match (ab, W::expect(&xs[2])) {
+                    (Expect::ErrRequired, _) | (_, Expect::ErrRequired) => Expect::ErrRequired,
+                    (Expect::Any, _) | (_, Expect::Any) => Expect::Any,
+                    (Expect::Exactly((a, b)), Expect::Exactly(c)) => Expect::Exactly((a, b, c)),
+                    (Expect::Rounded((a, b)), Expect::Exactly(c) | Expect::ErrOrExactly(c) | Expect::Rounded(c)) | (Expect::Exactly((a, b)) | Expect::ErrOrExactly((a, b)), Expect::Rounded(c)) => Expect::Rounded((a, b, c)),
+                    (Expect::Exactly((a, b)) | Expect::ErrOrExactly((a, b)), Expect::Exactly(c) | Expect::ErrOrExactly(c)) => Expect::ErrOrExactly((a, b, c)),
+                }
+            }
+            FV::Enum(_) => Expect::Any,
+            _ => Expect::ErrRequired,
+        }
+    }
+    fn same(a: &Self, b: &Self) -> bool {
+        T::same(&a.0, &b.0) && U::same(&a.1, &b.1) && W::same(&a.2, &b.2)
+    }
+}
+
+impl<T: Target> Target for [T; 2] {
+    const NAME: &'static str = "[_; 2]";
+    fn expect(v: &FV) -> Expect<Self> {
+        <(T, T)>::expect(v).map(|(a, b)| [a, b])
+    }
+    fn same(a: &Self, b: &Self) -> bool {
+        T::same(&a[0], &b[0]) && T::same(&a[1], &b[1])
+    }
+}
+
 impl<T: Target, U: Target> Target for (T, U) {
     const NAME: &'static str = "(_, _)";
     fn expect(v: &FV) -> Expect<Self> {
@@ -346,6 +394,9 @@ pub fn run(ctx: &Ctx) -> ! {
     let mut vals = scalars.clone();
     let base1: Vec<FV> = vec![FV::Null, i(-1), i(1), i(300), u(u64::MAX), i((1 << 53) + 1), FV::Float64(1.5), s("a"), FV::Boolean(true)];
     vals.extend(values::lists_over(&base1, 2, false));
+    // lists of length 3 (longer than every pair target, exactly a triple) over a reduced base
+    let base3: Vec<FV> = vec![FV::Null, i(1), i(300), s("a"), FV::Boolean(true)];
+    vals.extend(values::lists_over(&base3, 3, false).into_iter().filter(|l| matches!(l, FV::List(x) if x.len() == 3)));
     let base2: Vec<FV> = vec![FV::Null, list(vec![]), list(vec![i(1)]), list(vec![i(300), FV::Null]), list(vec![s("a")])];
     if ctx.tier == crate::common::Tier::Thorough {
         vals.extend(values::lists_over(&base2, 2, false).into_iter().skip(1));
@@ -353,6 +404,10 @@ pub fn run(ctx: &Ctx) -> ! {
         vals.extend(values::lists_over(&base2, 1, false).into_iter().skip(1));
     }
 
+    vals.push(list(vec![list(vec![i(1), i(2)]), list(vec![i(3), i(4), i(5)])]));
+    vals.push(list(vec![list(vec![i(1), i(2), i(3)])]));
+    vals.push(list(vec![list(vec![i(1), s("a")]), FV::Null, list(vec![i(2), s("b"), s("c")])]));
+    vals.push(list(vec![i(1), i(2), i(3), i(4)]));
     let mut tally = Tally { evals: 0, exact: 0, errs: 0, float_narrowing_observations: 0, by_target: BTreeMap::new() };
     let mut samples = Samples::new(8);
     macro_rules! t {
@@ -399,6 +454,14 @@ pub fn run(ctx: &Ctx) -> ! {
     t!((String, bool));
     t!((i64, Option<f64>));
     t!(Vec<(u8, i16)>);
+    t!((i16,));
+    t!((i8, u64, bool));
+    t!((Option<i64>, String, Option<u8>));
+    t!([i16; 2]);
+    t!([Option<u64>; 2]);
+    t!(Option<(i8, u8)>);
+    t!(Vec<[i64; 2]>);
+    t!(Vec<Option<(i16, String)>>);
 
     // multi-field rows: missing optional field, extra keys, every pair of (a: i16, b: Option<u8>) over the integer boundary values
     let ints: Vec<FV> = scalars.iter().filter(|v| int_of(v).is_some()).cloned().collect();
@@ -434,7 +497,7 @@ pub fn run(ctx: &Ctx) -> ! {
     let mut c = cov();
     c.insert("evaluations".into(), json!(tally.evals + multi));
     c.insert("distinct_nontrivial".into(), json!(tally.exact + tally.errs));
-    c.insert("rule".into(), json!("every value of the alphabet (null, integers at every i8..u64 / f32 / f64 exactness boundary, floats, strings, booleans, enums, lists to nesting 2) x 39 target field types (all integer widths, floats, String, bool, char, Option, Vec, tuples, nested) decoded from a row (with an extra key) and from edge parameters; plus every pair of boundary integers into struct { a: i16, b: Option<u8> } with b possibly absent. Oracle: independent expect(value, target): representable => exactly that value (floats bit-exact); integer out of range or wrong kind => error; cross-kind exact conversions => error or exact; float narrowing => any (counted). non-trivial = decodings that returned the exact value or a required error"));
+    c.insert("rule".into(), json!("every value of the alphabet (null, integers at every i8..u64 / f32 / f64 exactness boundary, floats, strings, booleans, enums, lists to nesting 2 and length 3 / 4) x 47 target field types (all integer widths, floats, String, bool, char, Option, Vec, tuples, nested) decoded from a row (with an extra key) and from edge parameters; plus every pair of boundary integers into struct { a: i16, b: Option<u8> } with b possibly absent. Oracle: independent expect(value, target): representable => exactly that value (floats bit-exact); integer out of range or wrong kind => error; cross-kind exact conversions => error or exact; float narrowing => any (counted). non-trivial = decodings that returned the exact value or a required error"));
     c.insert("values".into(), json!(vals.len()));
     c.insert("decoded_exactly".into(), json!(tally.exact));
     c.insert("errors_returned".into(), json!(tally.errs));
